@@ -12,7 +12,7 @@ def sha(b):
     return hashlib.sha256(b).digest()
 
 
-def gen_geom(rng, tier):
+def gen_geom(rng, tier, upper=False):
     kind = rng.pick(['diff', 'diff', 'disa', 'disa2'])
     nparts = 2 if kind == 'disa2' else 1
     parts = []
@@ -31,6 +31,11 @@ def gen_geom(rng, tier):
                       'dpfs_log2': [None, rng.pick([2, 3, 3, 4, 5]), rng.pick([4, 5, 6, 7])],
                       'external': int(rng.chance(0.35)), 'selector': rng.getrandbits(1),
                       'uninit': sorted(set(rng.randrange(nb) for _ in range(rng.pick([0, 0, 0, 1, 2]))))})
+    if upper:
+        # half-initialised trees: a zero expected hash one or two levels ABOVE the data hashes (a missing link in the chain)
+        for p in parts:
+            if rng.chance(0.35):
+                p['uninit_up'] = [[rng.pick([3, 3, 2]), rng.randrange(8)] for _ in range(rng.pick([1, 1, 2]))]
     return {'kind': 'disa' if kind.startswith('disa') else 'diff', 'active': rng.getrandbits(1), 'parts': parts,
             'seed': rng.getrandbits(32)}
 
@@ -43,7 +48,7 @@ def build(geom):
         p = geom['parts'][0]
         f, infos = savebuild.build_diff(rng, datas[0], active=geom['active'], ivfc_log2=tuple(p['ivfc_log2']),
                                         dpfs_log2=tuple(p['dpfs_log2']), external=bool(p['external']), selector=p['selector'],
-                                        uninit_blocks=tuple(p['uninit']))
+                                        uninit_blocks=tuple(p['uninit']), uninit_up=tuple(tuple(x) for x in p.get('uninit_up', ())))
         return f, infos
     # the builder takes one keyword set: build partitions separately by calling with per-partition kwargs
     return build_disa_multi(rng, datas, geom)
@@ -55,7 +60,7 @@ def build_disa_multi(rng, datas, geom):
     for d, p in zip(datas, geom['parts']):
         desc, part, info = savebuild.build_partition(rng, d, ivfc_log2=tuple(p['ivfc_log2']), dpfs_log2=tuple(p['dpfs_log2']),
                                                      external=bool(p['external']), selector=p['selector'],
-                                                     uninit_blocks=tuple(p['uninit']))
+                                                     uninit_blocks=tuple(p['uninit']), uninit_up=tuple(tuple(x) for x in p.get('uninit_up', ())))
         descs.append(desc); parts.append(part); infos.append(info)
     active = geom['active']
     table = bytearray()
